@@ -24,31 +24,31 @@ const (
 type Program struct {
 	closureDecls map[*ast.FuncLit]*ast.FuncDecl
 	closureFuncs map[*ast.FuncLit]*types.Func
-	fieldInit   map[types.Object]types.Object
-	reachWriter map[*types.Func]bool
-	fresh       map[*types.Func]bool
-	callOnly    map[*ast.FuncLit]types.Object
-	globalInits map[*types.Var]ast.Expr
-	privAlloc   map[types.Object]bool
-	binOpDone bool
-	binOpVals map[string]string
-	binOpPos  token.Pos
-	binOpFn   *types.Func
-	scanPosDone bool
-	scanPosOK   bool
-	scanPosWhy  string
-	walkChecked bool
-	walkWhy     string
+	fieldInit    map[types.Object]types.Object
+	reachWriter  map[*types.Func]bool
+	fresh        map[*types.Func]bool
+	callOnly     map[*ast.FuncLit]types.Object
+	globalInits  map[*types.Var]ast.Expr
+	privAlloc    map[types.Object]bool
+	binOpDone    bool
+	binOpVals    map[string]string
+	binOpPos     token.Pos
+	binOpFn      *types.Func
+	scanPosDone  bool
+	scanPosOK    bool
+	scanPosWhy   string
+	walkChecked  bool
+	walkWhy      string
 	entryClasses map[string][]bool
 	entryBacked  map[string]bool
-	constTables map[*types.Var][]*ast.KeyValueExpr
-	recorded map[string]bool // functions of the reviewed tree (anchors_gen.go), by package|receiver|name
-	Dir    string
-	Fset   *token.FileSet
-	All    []*packages.Package // the three module packages, sorted by path
-	PQL    *packages.Package
-	Parser *packages.Package
-	Main   *packages.Package
+	constTables  map[*types.Var][]*ast.KeyValueExpr
+	recorded     map[string]bool // functions of the reviewed tree (anchors_gen.go), by package|receiver|name
+	Dir          string
+	Fset         *token.FileSet
+	All          []*packages.Package // the three module packages, sorted by path
+	PQL          *packages.Package
+	Parser       *packages.Package
+	Main         *packages.Package
 
 	Info           *types.Info // merged type information of the three packages
 	parents        map[ast.Node]ast.Node
